@@ -114,6 +114,9 @@ def highestOf (size : Option Int) (uns : Bool) : Option Int :=
   | Option.none => Option.none
   | some s => if s = 0 then Option.none else if uns then some (2 ^ s.toNat - 1) else some (2 ^ (s.toNat - 1) - 1)
 
+/-- class of the exception raised for a bound outside the size range (see the comment in `intInit`) -/
+def boundErr (unsigned : Option Bool) : String := if unsigned.isNone then "TypeError" else "ValueError"
+
 /-- `IntConverter.init` (the type checks of `min`/`max`/`size`/`unsigned` arguments are outside the model:
     options are well-typed).  `uint64` = `provider.uint64_support`. -/
 def intInit (uint64 : Bool) (o : IntOpts) : Except String IntConv :=
@@ -127,9 +130,11 @@ def intInit (uint64 : Bool) (o : IntOpts) : Except String IntConv :=
   let lowest := lowestOf size uns
   let highest := highestOf size uns
   -- if highest is not None and max_val is not None and max_val > highest: throw(ValueError)
-  if (match highest, o.max with | some h, some m => decide (m > h) | _, _ => false) then .error "ValueError" else
+  --   (the message is formatted with `"… unsigned=%s. Got: %d" % (highest, size, max_val, unsigned)`: the last two arguments are
+  --    swapped, so `%d` receives `unsigned`; with `unsigned=None` the formatting itself raises TypeError)
+  if (match highest, o.max with | some h, some m => decide (m > h) | _, _ => false) then .error (boundErr o.unsigned) else
   -- if lowest is not None and min_val is not None and min_val < lowest: throw(ValueError)
-  if (match lowest, o.min with | some l, some m => decide (m < l) | _, _ => false) then .error "ValueError" else
+  if (match lowest, o.min with | some l, some m => decide (m < l) | _, _ => false) then .error (boundErr o.unsigned) else
   .ok { minVal := match o.min with | Option.none => lowest | some m => some m,
         maxVal := match o.max with | Option.none => highest | some m => some m,
         size := size, unsigned := o.unsigned }
